@@ -119,7 +119,7 @@ func inlinablePkg(fn *ssa.Function) bool {
 
 // autoInline: small leaf functions of the package without loops.
 func (x *Exec) autoInline(fn *ssa.Function) bool {
-	if len(fn.Blocks) == 0 || len(fn.Blocks) > 12 {
+	if len(fn.Blocks) == 0 || len(fn.Blocks) > 48 {
 		return false
 	}
 	lf := x.prog.LoopsOf(fn)
@@ -149,7 +149,7 @@ func (x *Exec) autoInline(fn *ssa.Function) bool {
 			}
 		}
 	}
-	return n <= 60
+	return n <= 200
 }
 
 // externDefault: policy for dependency functions without contract or model.
